@@ -32,3 +32,29 @@ Print Assumptions C16_unsolvable_means_unreachable.
 Theorem C16_closure_complete_unrestricted_refuted : ~ C16_closure_complete_stmt.
 Proof. exact C16_closure_complete_stmt_refuted. Qed.
 Print Assumptions C16_closure_complete_unrestricted_refuted.
+
+(* ---- the structural half of "generated scenarios are solvable" (proofs/PGen4.v), for all
+   parameter sets and all streams of draws ---- *)
+From NasimV Require Import StmtGen.
+From NasimV.proofs Require Import PGen4.
+
+Theorem C16_gen_sensitive_root_vulnerable :
+  forall p o sc, gen_ok p o sc ->
+    forall a v, In (a, v) (s_sens sc) -> exists c, In (a, c) (s_hosts sc) /\ cfg_root_vulnerable sc c = true.
+Proof. exact PGen4.C16_gen_sensitive_root_vulnerable. Qed.
+Print Assumptions C16_gen_sensitive_root_vulnerable.
+
+Theorem C16_gen_every_subnet_vulnerable :
+  forall p o sc, gen_ok p o sc ->
+    forall t, (1 <= t < nsubnets sc)%nat ->
+      exists a c e, In (a, c) (s_hosts sc) /\ fst a = t /\ In e (s_exploits sc) /\ cfg_vuln_e c e = true.
+Proof. exact PGen4.C16_gen_every_subnet_vulnerable. Qed.
+Print Assumptions C16_gen_every_subnet_vulnerable.
+
+Theorem C16_gen_firewall_admits_usable_service :
+  forall p o sc, gen_ok p o sc ->
+    forall s t l, assoc (s, t) (s_fw sc) = Some l -> (1 <= t)%nat ->
+      exists srv a c e, In srv l /\ In (a, c) (s_hosts sc) /\ fst a = t /\ In e (s_exploits sc)
+                        /\ e_srv e = srv /\ cfg_vuln_e c e = true.
+Proof. exact PGen4.C16_gen_firewall_admits_usable_service. Qed.
+Print Assumptions C16_gen_firewall_admits_usable_service.
